@@ -91,6 +91,7 @@ func cmdRun(args []string) {
 	params := fs.String("params", "", "k=v,k=v")
 	growExact := fs.Bool("growexact", false, "append grows exactly")
 	ceiling := fs.Int64("ceiling", 0, "alloc ceiling bytes")
+	maxconc := fs.Int("maxconc", 0, "max concretised values")
 	prof := fs.String("cpuprofile", "", "write cpu profile")
 	fs.Parse(args)
 	if *prof != "" {
@@ -114,6 +115,7 @@ func cmdRun(args []string) {
 	spec.Cfg.Trace = *trace
 	spec.Cfg.GrowExact = *growExact
 	spec.Cfg.AllocCeiling = *ceiling
+	spec.Cfg.MaxConcretize = *maxconc
 	spec.Cfg.InitPkgs = defaultInitPkgs()
 	spec.Cfg.Params = parseParams(*params)
 	rep, err := w.Explore(spec)
